@@ -156,6 +156,17 @@ ReadClauses(f, val, sf, rs, w) ==
      (IF val = f THEN {} ELSE {"P_roundtrip"})
 \cup (IF sf \o rs = w THEN {} ELSE {"P_sofar_plus_remainder"})
 
+(* ---- huge fields (megabytes): only the length and a digest of the content reach TLC ------- *)
+(* h = [t |-> "hstring" | "htext" | "hlist", len |-> content length in bytes (for a text / name-list: of its      *)
+(*      UTF-8 / comma-joined UTF-8), digest |-> SHA-256 of that content (an opaque string here), ...]             *)
+(* The encoding of such a field is StringEnc(content): a 4-byte length and the content itself.                    *)
+HugeTypes == {"hstring", "htext", "hlist"}
+\* w = what the writer appended: [seglen, header (its first 4 bytes), digest (of everything after them)]
+HugeWriteClauses(h, w) ==
+  IF w.seglen = 4 + h.len /\ w.header = BE4(h.len) /\ w.digest = h.digest THEN {} ELSE {"C_wire_layout"}
+\* r = what the reader returned, summarised the same way: [t, len, digest]
+HugeReadClauses(h, r) == IF r.t = h.t /\ r.len = h.len /\ r.digest = h.digest THEN {} ELSE {"P_roundtrip"}
+
 (* ---- the state machine ----------------------------------------------------------------- *)
 Init == /\ fields = <<>> /\ wire = <<>> /\ ends = <<>> /\ phase = "write"
         /\ sofar = <<>> /\ rest = <<>> /\ got = <<>>
